@@ -88,7 +88,7 @@ def pipeline(tier):
     with open(os.path.join(wd, "PickleTraceP.cfg"), "w") as f:
         f.write(cfgtxt)
     viols, n = vlib.eval_traces(SPEC, "PickleTraceP", os.path.join(wd, "PickleTraceP.cfg"),
-                                [{"id": l["id"], "events": [{k: v for k, v in e.items() if k not in ("hex", "msg")} for e in l["events"]]} for l in lines],
+                                [{"id": l["id"], "events": [{k: v for k, v in e.items() if k not in ("hex", "msg", "shape")} for e in l["events"]]} for l in lines],
                                 shards=14, timeout=3000)
     out = []
     for v in viols:
@@ -130,7 +130,10 @@ def summarise(e):
         return {"ev": "RoundTrip", "value": shape_of(e["v"]), "n_ops": len(e["ops"]), "enc": e["enc"][:80], "dec": e["dec"][:80],
                 "decoded": shape_of(e["w"]) if isinstance(e.get("w"), dict) else None}
     if e["ev"] == "Decode":
-        return {"ev": "Decode", "hex": e.get("hex"), "outcome": e["outcome"], "unpickler": e["unpickler"], "ops": [o["op"] for o in e["ops"][:12]]}
+        d = {"ev": "Decode", "hex": e.get("hex"), "outcome": e["outcome"], "unpickler": e["unpickler"], "ops": [o["op"] for o in e["ops"][:12]]}
+        if e.get("shape"):
+            d["shape"] = e["shape"]
+        return d
     return {k: v for k, v in e.items() if k != "dump"}
 
 
@@ -140,6 +143,8 @@ def sig_of(v):
         return "%s|%s" % (v["prop"], v["what"])
     if ev["ev"] == "RoundTrip":
         return "%s|%s|%s" % (v["prop"], v["what"], ev["value"])
+    if ev.get("shape"):
+        return "%s|%s|%s" % (v["prop"], v["what"], ev["shape"].split(",")[0])
     return "%s|%s|%s" % (v["prop"], v["what"], ev.get("hex", ""))
 
 
